@@ -74,6 +74,13 @@ fn run_case(_kind: &str, idx: u64, rng: &mut Rng, mon: &mut Mon, _tier: Tier) {
     let round = rng.bool(0.2);
     if round {
         q = std::array::from_fn(|_| (rng.int(-12, 12) as f64 * 15.0).to_radians());
+        // (a third of them axis-aligned: every joint a multiple of 90 degrees, J5 at +-90 - flange orientations exactly
+        // on the seams of Euler angles and of matrix-to-quaternion case distinctions)
+        if rng.bool(0.33) {
+            q = std::array::from_fn(|_| (rng.int(-2, 2) as f64 * 90.0).to_radians());
+            q[4] = rng.sign() * std::f64::consts::FRAC_PI_2;
+            q[2] = (rng.int(-12, 12) as f64 * 15.0).to_radians();
+        }
         mon.count("round_angle_vectors");
     }
     let placed = if round { 1 } else { rng.usize(4) };
